@@ -560,6 +560,14 @@ fn process_request_obj(request: &Request, dbs: &Arc<Databases>, client: &mut Cli
             request_str,
             opp_id,
         } => {
+            // An rp message wraps exactly one command. A node never produces a nested rp, and accepting
+            // one would let any client choose the recursion depth of this handler (a few hundred
+            // levels exhaust the stack and abort the process)
+            if request_str == "rp" || request_str.starts_with("rp ") {
+                return Response::Error {
+                    msg: "Invalid command: rp can not wrap another rp".to_string(),
+                };
+            }
             log::debug!("ack send_message_to_secoundary {} {}", opp_id, request_str);
             match client
                 .sender
